@@ -427,6 +427,11 @@ package lib
 //@   atcall AddRegistration before: assert @C07: defined(covertOK) && covertOK != "" && reg.Covert == covertOK
 //@   atcall AddRegistration before: assert @C07: regPrescanned(reg) || !isV4(reg.PhantomIp) || (defined(liveVerdict) && !liveVerdict)
 //@   atcall AddRegistration before: assert @C07: *reg.RegistrationSource == 1 ==> defined(blockedLate) && !blockedLate
+// C07 "if" direction: a registration that is not yet tracked and meets every admission condition IS made usable and
+// announced - no other reason for dropping it exists
+//@   atcall RegistrationManager).RegistrationExists after: snap existed := res
+//@   atcall AddRegistration before: snap added := true
+//@   ensures @C07: defined(validated) && validated && defined(existed) && !existed && defined(covertOK) && covertOK != "" && (regPrescanned(reg) || !isV4(reg.PhantomIp) || (defined(liveVerdict) && !liveVerdict)) && (*reg.RegistrationSource != 1 || (defined(blockedLate) && !blockedLate)) ==> defined(added)
 
 // bookkeeping / formatting around the decision (frames only; none of them touches the registry lock in this thread:
 // GetConnectingTransports takes and releases the read lock before returning)
